@@ -192,6 +192,7 @@ type Snap struct {
 	Heap      []int      `json:"-"`
 	Stales    int        `json:"-"`
 	raw       *core.VerifC19Snapshot
+	caps      []core.VerifC19Caps
 	foreign   int // transactions not in the universe
 }
 
@@ -212,7 +213,7 @@ func (u *universe) id(s TxSpec) int {
 
 func (r *rig) snapshot(u *universe) *Snap {
 	raw := r.pool.VerifC19Snapshot(r.w.internals()[:r.n])
-	s := &Snap{raw: raw, Accts: make([]AcctView, r.n)}
+	s := &Snap{raw: raw, Accts: make([]AcctView, r.n), caps: r.pool.VerifC19ListCaps()}
 	idOf := func(t *types.Transaction) int {
 		sp, ok := r.w.specOf(t)
 		if !ok {
